@@ -185,6 +185,9 @@ def gen_rule(rng, name, names, valid_bias=0.9):
             low = 0
         n = rng.choice([low, low, low + 1, 2, 3, 5, 10])
         decls.append('symbols: ' + ' '.join(css_symbol(rng) for _ in range(n)))
+    if first == 'extends' and rng.random() < 0.3:
+        # an `extends` rule is registered whatever it declares: too few (or no) symbols of its own
+        decls.append('symbols: ' + ' '.join(css_symbol(rng) for _ in range(rng.choice([0, 0, 1, 1, 2]))))
     if first == 'additive' or rng.random() < 0.12:
         decls.append('additive-symbols: ' + gen_additive(rng))
     if rng.random() < 0.45:
